@@ -658,19 +658,26 @@ def check(ctx):
     if gcp is None:
         raise AnalysisError('load.get_custom_parsers not found')
     gcn = ctx.N(gcp)
+    # every (format, parser class) pair the method mentions, however it registers them: setdefault(k, P) - also through a bound
+    # method -, a table of pairs, a dict display, a keyword
     keys_ = set()
+
+    def _is_parser(e_):
+        return isinstance(e_, ast.Name) and e_.id.endswith('Parser')
     for c_ in ast.walk(gcn.node):
-        if isinstance(c_, ast.Call) and isinstance(c_.func, ast.Attribute) and c_.func.attr in ('setdefault', 'update') and c_.args:
-            if isinstance(c_.args[0], ast.Constant):
-                keys_.add(c_.args[0].value)
-            elif isinstance(c_.args[0], ast.Dict):
-                keys_ |= {k_.value if isinstance(k_, ast.Constant) else u(k_) for k_ in c_.args[0].keys}
-            keys_ |= {k_.arg for k_ in c_.keywords if k_.arg}
-        if isinstance(c_, ast.Assign) and isinstance(c_.targets[0], ast.Subscript) and isinstance(c_.targets[0].slice, ast.Constant):
+        if isinstance(c_, ast.Call) and len(c_.args) == 2 and isinstance(c_.args[0], ast.Constant) and isinstance(c_.args[0].value, str) \
+                and _is_parser(c_.args[1]):
+            keys_.add(c_.args[0].value)
+        if isinstance(c_, ast.Call):
+            keys_ |= {k_.arg for k_ in c_.keywords if k_.arg and _is_parser(k_.value)}
+        if isinstance(c_, ast.Tuple) and len(c_.elts) == 2 and isinstance(c_.elts[0], ast.Constant) and isinstance(c_.elts[0].value, str) \
+                and _is_parser(c_.elts[1]):
+            keys_.add(c_.elts[0].value)
+        if isinstance(c_, ast.Dict):
+            keys_ |= {k_.value for k_, v_ in zip(c_.keys, c_.values) if isinstance(k_, ast.Constant) and _is_parser(v_)}
+        if isinstance(c_, ast.Assign) and isinstance(c_.targets[0], ast.Subscript) and isinstance(c_.targets[0].slice, ast.Constant) \
+                and _is_parser(c_.value):
             keys_.add(c_.targets[0].slice.value)
-        if isinstance(c_, ast.Dict) and c_.keys and all(isinstance(k_, ast.Constant) for k_ in c_.keys) and \
-                any(isinstance(v_, ast.Name) and v_.id.endswith('Parser') for v_ in c_.values):
-            keys_ |= {k_.value for k_ in c_.keys}
     want_ = {'xml', 'excel-xml', 'sql', 'geojson'}
     ctx.run.check(keys_ == want_, 'PRS', gcn.where, gcp.qualname, 'custom parsers for %s' % sorted(want_),
                   'load substitutes its own parser for %s: a format that tabulator reads one record per data line is read by other rules '
